@@ -67,10 +67,23 @@ pub fn addr_v4(rng: &mut ChaCha8Rng) -> SocketAddr {
 }
 
 pub fn addr_v6(rng: &mut ChaCha8Rng) -> SocketAddr {
-    let ip = match rng.gen_range(0..8) {
+    let ip = match rng.gen_range(0..10) {
         0 => Ipv6Addr::UNSPECIFIED,
         1 => Ipv6Addr::LOCALHOST,
         2 => Ipv6Addr::from([0xff; 16]),
+        // address forms with an embedded IPv4 address (dual-stack sockets, translators) and other
+        // special-purpose blocks: IPv4-mapped, IPv4-compatible, NAT64, 6to4, Teredo, link-local
+        3 | 4 => {
+            let v4: u32 = rng.gen();
+            let w = |hi: u128| Ipv6Addr::from(hi | v4 as u128);
+            match rng.gen_range(0..7) {
+                0 | 1 | 2 => w(0xffffu128 << 32),
+                3 => w(0),
+                4 => w(0x0064_ff9bu128 << 96),
+                5 => Ipv6Addr::from((0x2002u128 << 112) | ((v4 as u128) << 80) | rng.gen::<u64>() as u128),
+                _ => Ipv6Addr::from((0xfe80u128 << 112) | rng.gen::<u64>() as u128),
+            }
+        }
         _ => Ipv6Addr::from(rng.gen::<u128>()),
     };
     SocketAddr::new(ip.into(), port(rng))
@@ -111,6 +124,17 @@ pub fn utf8(rng: &mut ChaCha8Rng) -> String {
         "", "A Generic Error Ocurred", "é", "日本語", "\u{1F600}", "\0", " ", "e", "0:", "i1e", "\n", "ß",
         "\u{FFFD}", "x",
     ];
+    if rng.gen_bool(0.1) {
+        // long text: ASCII up to some offset, then multi-byte characters
+        let k = rng.gen_range(0..=300);
+        let mut text: String = (0..k).map(|_| (b'a' + rng.gen_range(0..26u8)) as char).collect();
+        let wide = *["é", "日本語", "\u{1F600}"].choose(rng).unwrap();
+        let total = k + rng.gen_range(2..=200);
+        while text.len() < total {
+            text.push_str(wide);
+        }
+        return text;
+    }
     let n = rng.gen_range(0..5);
     (0..n).map(|_| *PARTS.choose(rng).unwrap()).collect()
 }
